@@ -235,6 +235,7 @@ impl<'a> G<'a> {
                 5 => { self.feat("quoted-in-arg"); let q = self.u.coin(1, 2); self.p(if q { "'" } else { "\"" }); self.p("s"); self.tp(); if !q && self.u.coin(1, 3) { self.mvar(true); self.tp(); } self.mark(",", MK::Masked); if self.u.coin(1, 2) { self.p("("); } self.mark(")", MK::Masked); self.mark("=", MK::Masked); if self.u.coin(1, 4) { self.p("(("); } self.p(if q { "' " } else { "\" " }); }
                 6 => { self.d_inc(); self.user_call(2); self.depth -= 1; self.p(" "); let w = self.pick(WORDS); self.p(w); }
                 7 => { self.d_inc(); self.builtin_call(2); self.depth -= 1; }
+                8 if self.u.coin(1, 3) => { self.feat("bare-call-then-colon-in-value"); let w = self.pick(&["a", "", "x "]); self.p(w); self.p("%"); let m = self.pick(CALLNAMES); self.p(m); let t = self.pick(&[":", ":b", " : c", ":1"]); self.p(t); self.tp(); } // not a label: labels exist at statement level only
                 8 => { self.p("="); let w = self.pick(WORDS); self.p(w); } // '=' inside value text is just text (after first token / when not a name)
                 9 => { let s = self.pick(&["1", "42", "3.5"]); self.p(s); }
                 10 => { if self.u.coin(1, 2) { self.p("/"); let w = self.pick(WORDS); self.p(w); } else { self.feat("comment-in-value"); let w = self.pick(WORDS); self.p(w); self.mark("/*c,=;)(*/", MK::HiddenWs); let w = self.pick(WORDS); self.p(w); self.tp(); } }
